@@ -713,6 +713,7 @@ func afterAbandonedCall(c *runner.Ctx) {
 }
 
 func run(c *runner.Ctx) {
+	defer panickingFunctions(c)
 	// texts of the rule-writing errors, taken from the model
 	type probe struct {
 		A string `valid:"either=1"`
